@@ -37,6 +37,8 @@ class Loader:
         self.modules["collections"] = coll
         self.modules["collections.abc"] = abc
         self.modules["functools"] = stdlib.make_functools_module()
+        self.modules["itertools"] = stdlib.make_itertools_module()
+        self.modules["operator"] = stdlib.make_operator_module()
         self.modules["datetime"] = stdlib.make_datetime_module()
         from . import aio
         self.modules["asyncio"] = aio.make_asyncio_module(b)
@@ -69,7 +71,19 @@ class Loader:
             return self.modules[name]
         path, is_pkg = self.path_of(name)
         if path is None:
-            raise Unsupported(f"import of unmodelled module {name}")
+            # a module of the standard library (or an installed distribution) without a model: importing it is harmless,
+            # using anything from it is Unsupported at the point of use (Interp.getattr on a module without path)
+            import importlib.util
+            try:
+                known = not name.startswith("pyairtouch") and importlib.util.find_spec(name.split(".")[0]) is not None
+            except (ImportError, ValueError):
+                known = False
+            if not known:
+                raise Unsupported(f"import of unmodelled module {name}")
+            mod = Module(name)
+            mod.unmodelled_stub = True
+            self.modules[name] = mod
+            return mod
         # parents first
         if "." in name:
             parent = self.load(name.rsplit(".", 1)[0], it)
